@@ -15,6 +15,7 @@ use std::net::{AddrParseError, Ipv4Addr, Ipv6Addr};
 use std::str::{from_utf8, FromStr};
 
 const ZERO: &str = "0";
+const PLUS: &str = "+";
 const NEWLINE: &str = "\n";
 const CARRIAGE_RETURN: char = '\r';
 
@@ -119,7 +120,7 @@ fn parse_addresses<'a, T: FromStr<Err = AddrParseError>, I: Iterator<Item = &'a 
         .parse::<T>()
         .map_err(ParseError::InvalidDestinationAddress)?;
 
-    if source_port.starts_with(ZERO) && source_port != ZERO {
+    if (source_port.starts_with(ZERO) && source_port != ZERO) || source_port.starts_with(PLUS) {
         return Err(ParseError::InvalidSourcePort(None));
     }
 
@@ -127,7 +128,9 @@ fn parse_addresses<'a, T: FromStr<Err = AddrParseError>, I: Iterator<Item = &'a 
         .parse::<u16>()
         .map_err(|e| ParseError::InvalidSourcePort(Some(e)))?;
 
-    if destination_port.starts_with(ZERO) && destination_port != ZERO {
+    if (destination_port.starts_with(ZERO) && destination_port != ZERO)
+        || destination_port.starts_with(PLUS)
+    {
         return Err(ParseError::InvalidDestinationPort(None));
     }
 
